@@ -11,7 +11,9 @@
   * `needs xs op`   — how many elements the vector must be able to hold for `op` (0 if `op` does
                       not grow the vector or `Vec` rejects it);
   * `appended op`   — the items `op` appends;
-  * `Op.forIV/forTV`— the operation exists on that vector kind;
+  * `Op.forIV/forTV`— the operation exists on that vector kind (`Op.constAppend cap2 other` =
+                      `InlineVec::const_append` from an `InlineVec<_, cap2>`; `Op.spareWrite` =
+                      `spare_capacity_mut` + `set_len`);
   * `Op.InRange`    — slice arguments have a `usize` length;
   * a ThinVec "capacity overflow" panic (`PanicClass.overflow`: `len + additional` overflows
     `usize` or the layout exceeds `isize::MAX`) is not part of the list specification (lists are
@@ -311,6 +313,60 @@ theorem never_unreachable_tv {p : TVParams} (s : TV α) (hr : TVReach p s) (op :
   · rw [e1]; intro h
     have := (spec_panic s.xs op _ h).1
     simp at this
+
+/-! ## Cross-capacity append and in-place filling -/
+
+/-- **`const_append` between inline vectors of different capacities** behaves like `Vec::append`
+    under the capacity of the *destination* only: in every reachable state, if
+    `len + other_len ≤ CAP` the destination gets the source's elements after its own and the
+    source is left empty; otherwise it panics (class `capacity`) and BOTH vectors are untouched.
+    The source's capacity `CAP2` has no influence, and the result on the destination is that of
+    `append`. (The general theorems `iv_refines`, `panics_iff`, `after_panic_prefix`, `iv_cap`
+    cover `Op.constAppend` like every other operation.) -/
+theorem const_append_both {cap : Nat} (s : IV α) (_hr : IVReach cap s) (cap2 : Nat) (other : List α) :
+    (s.xs.length + other.length ≤ s.cap →
+      s.constAppend cap2 other = (.ok (.items []), ⟨s.cap, s.xs ++ other⟩, [])) ∧
+    (s.cap < s.xs.length + other.length →
+      s.constAppend cap2 other = (.panic .capacity, s, other)) ∧
+    (∀ cap2', s.constAppend cap2' other = s.constAppend cap2 other) ∧
+    ((s.constAppend cap2 other).1, (s.constAppend cap2 other).2.1) = s.append other := by
+  refine ⟨fun h => ?_, fun h => ?_, fun _ => rfl, ?_⟩
+  · simp [IV.constAppend, h]
+  · have : ¬ s.xs.length + other.length ≤ s.cap := by omega
+    simp [IV.constAppend, this]
+  · by_cases h : s.xs.length + other.length ≤ s.cap <;> simp [IV.constAppend, IV.append, h]
+
+/-- The two directions of a capacity mix-up: a 3-slot vector holding 2 elements cannot take 2
+    more from a 7-slot one (panic, both unchanged); a 7-slot vector holding 3 takes 2 from a
+    3-slot one. -/
+example :
+    (⟨3, [1, 2]⟩ : IV Nat).constAppend 7 [8, 9] = (.panic .capacity, ⟨3, [1, 2]⟩, [8, 9]) ∧
+    (⟨7, [1, 2, 3]⟩ : IV Nat).constAppend 3 [8, 9] = (.ok (.items []), ⟨7, [1, 2, 3, 8, 9]⟩, []) ∧
+    IVReach 3 ((IV.new 3 : IV Nat).run [.push 1, .push 2]).2 := ⟨by decide, by decide, _, rfl⟩
+
+example : specStep [1, 2] (.constAppend 7 [8, 9] : Op Nat) = (.ok (.items []), [1, 2, 8, 9]) ∧
+    needs [1, 2] (.constAppend 7 [8, 9] : Op Nat) = 4 := by decide
+
+/-- **Filling spare capacity in place** (`spare_capacity_mut` + `set_len`): on an InlineVec it
+    succeeds exactly when the values fit in `CAP - len` slots (else: caller-side capacity panic,
+    nothing written); on a ThinVec, after `reserve(n)`, it appends the values and — when they
+    already fitted — leaves the capacity as it was (no reallocation). -/
+theorem spare_write {cap : Nat} {p : TVParams} (s : IV α) (_hr : IVReach cap s) (t : TV α)
+    (ht : TVReach p t) (vals : List α) :
+    (s.xs.length + vals.length ≤ s.cap →
+      s.step (.spareWrite vals) = (.ok .unit, ⟨s.cap, s.xs ++ vals⟩)) ∧
+    (s.cap < s.xs.length + vals.length → s.step (.spareWrite vals) = (.panic .capacity, s)) ∧
+    (t.xs.length + vals.length ≤ t.cap →
+      t.step (.spareWrite vals) = (.ok .unit, { t with xs := t.xs ++ vals })) := by
+  refine ⟨fun h => ?_, fun h => ?_, fun h => ?_⟩
+  · simp [IV.step, IV.spareWrite, IV.extendFromSlice, h]
+  · have : ¬ s.xs.length + vals.length ≤ s.cap := by omega
+    simp [IV.step, IV.spareWrite, IV.extendFromSlice, this]
+  · have hl := ht.wf.1.len
+    have : ¬ vals.length > t.cap - t.xs.length := by omega
+    simp [TV.step, TV.spareWrite, TV.extendFromSlice, TV.afterReserve, TV.reserve, this]
+
+example : tv0.step (.spareWrite [5, 6, 7]) = (.ok .unit, ⟨4, [5, 6, 7], 8, 8, 8, 8⟩) := by decide
 
 /-! ## Capacity -/
 
